@@ -704,9 +704,9 @@ class Built:
                     m["extend"] = c["extend"] if c["extend"] is False else [self.classes[b] for b in c["extend"]]
                 attrs["Media"] = type("Media", (), m)
             if c["jsdata"]:
-                attrs["get_js_data"] = (lambda k: lambda self, *a, **kw: {"k": k})(i)
+                attrs["get_js_data"] = (lambda k: lambda self, *a, **kw: {"k": k, "n": len(inst)})(i)
             if c["cssdata"]:
-                attrs["get_css_data"] = (lambda k: lambda self, *a, **kw: {"c": k})(i)
+                attrs["get_css_data"] = (lambda k: lambda self, *a, **kw: {"c": k, "n": len(inst)})(i)
             self.classes.append(type(c["name"], bases, attrs))
         self.page_cls = type("C04Page", (Component,), {"template": "[[P]]" + page_src(prog), "__module__": mod, "get_context_data": gcd("P")})
         # the same page with its content handed in from Python as a slot
@@ -982,7 +982,7 @@ def page_diag(prop, imports, terms):
     import os
     if not terms:
         return []
-    path = os.path.join(C.WORK, prop, "diag_0.v")
+    path = os.path.join(C.WORK, prop, "diag_p%d_0.v" % os.getpid())
     with open(path, "w") as f:
         f.write(imports + "\nDefinition cases : list page_case :=\n [ " + "\n ; ".join(terms) + "\n ].\n")
         f.write("Eval vm_compute in (map page_diag cases).\n")
